@@ -48,7 +48,7 @@ def run(tier):
         traces += shard_file(t, 2 if quick else 4, wd, "tlc%d" % ci)
     # T: ladder of prefix widths, seeded random trees with heavy repetition + adversarial edits, repository corpora
     t2 = os.path.join(wd, "rand.ndjson")
-    vlib.harness(["backrefs", "--seed", chk.seed, "--out", t2, "--ladder", 1, "--ladder-full", 0 if quick else 1, "--random", 120 if quick else 5000,
+    vlib.harness(["backrefs", "--seed", chk.seed, "--out", t2, "--ladder", 1, "--ladder-full", 0 if quick else 1, "--ladder-big", 0 if quick else 1, "--random", 120 if quick else 3000,
                   "--max-bytes", 5000 if quick else 40000])
     t3 = os.path.join(wd, "corpus.ndjson")
     vlib.harness(["backrefs", "--seed", chk.seed + 7, "--out", t3, "--corpus", 1, "--max-bytes", 5000 if quick else 300000,
